@@ -792,6 +792,14 @@ namespace sim
                      cx.viol( "C18.depth", "limit-too-early", i, "nesting depth error raised at guarded level " + std::to_string( k ) + " although the limit is " + std::to_string( top->p0 ) );
                   }
                }
+               if( top != nullptr && top->cls == RC::W_LIMIT_BYTES && !on_sub && top->p0 >= 0 && std::string( rule_name( e.rule ) ).find( "limit_bytes" ) != std::string::npos ) {
+                  // the byte limit is reached only if the rule ran into the LOWERED end: when no more than N bytes were
+                  // available from where it started, the guard changed nothing and there is nothing to report
+                  const Event& en = h[ top->enter ];
+                  if( en.endoff >= en.pos && ( en.endoff - en.pos ) <= static_cast< std::uint32_t >( top->p0 ) ) {
+                     cx.viol( "C18.bytes", "limit-too-early", i, "byte limit error of " + short_name( top->rule ) + " although only " + std::to_string( en.endoff - en.pos ) + " byte(s) were available from its start, limit " + std::to_string( top->p0 ) );
+                  }
+               }
                if( top != nullptr ) {
                   top->raise_pending = true;
                   top->raise_idx = i;
